@@ -75,6 +75,9 @@ def make_machine(col, pp, profile, monitor):
                           'dst': benchgen.region_ref(self.world, data.draw, pi), 'q': None}
                     op['q'] = benchgen.gen_transfer_quantity(self.world, data.draw, dict(profile, q_modes=['frac']), op)
                     self.do(op)
+            # a slice object held from the start (a caller keeping `s = plate[...]` and using it again and again)
+            for _ in range(profile.get('initial_slices', 0)):
+                self.do(benchgen.gen_slice(self.world, data.draw, profile))
 
         def do(self, op):
             if op is None:
